@@ -680,6 +680,66 @@ def _mutated_attrs(view: AsyncView, keys: Sequence[str]) -> Dict[str, List[Tuple
     return out
 
 
+# hand-off topology of the reference tree: (owner class, queue) -> (functions that append / extend, functions that pop)
+REF_TOPOLOGY = {
+    ("conn", "q_expected_select"): ({"conn.push_expected_blocking", "conn.push_expected_nonblocking"}, {"conn.push_selection"}),
+    ("conn", "q_expected_ts_max"): ({"conn.push_expected_blocking"}, {"conn.push_ts_max"}),
+    ("conn", "q_grouped"): ({"conn.push_selection"}, {"node.push_step"}),
+    ("conn", "q_msgs"): ({"conn.push_zip"}, {"conn.push_selection"}),
+    ("conn", "q_sample"): ({"conn.push_ts_input"}, {"conn.push_ts_input"}),
+    ("conn", "q_ts_input"): ({"conn.push_ts_input"}, {"conn.push_expected_nonblocking", "conn.push_ts_max"}),
+    ("conn", "q_ts_max"): ({"conn.push_ts_max"}, {"node.push_phase_shift"}),
+    ("conn", "q_ts_next_step"): ({"node.push_phase_shift", "node.push_scheduled_ts"}, {"conn.push_expected_blocking", "conn.push_expected_nonblocking"}),
+    ("conn", "q_zip_delay"): ({"conn.push_ts_input"}, {"conn.push_zip"}),
+    ("conn", "q_zip_msgs"): ({"conn.push_input"}, {"conn.push_zip"}),
+    ("node", "q_sample"): ({"node.push_phase_shift"}, {"node.push_phase_shift"}),
+    ("node", "q_tick"): ({"node._start", "node.push_step"}, {"node.push_scheduled_ts"}),
+    ("node", "q_ts_end_prev"): ({"node._start", "node.push_phase_shift", "node.push_step"}, {"node.push_phase_shift"}),
+    ("node", "q_ts_scheduled"): ({"node.push_scheduled_ts"}, {"node.push_phase_shift"}),
+    ("node", "q_ts_start"): ({"node.push_phase_shift"}, {"node.push_step"}),
+}
+
+
+def rule_handoff_topology(chk: Check, view: AsyncView, rid: str):
+    """Every event queue is filled and drained by exactly the functions of the reference hand-off topology (a second producer lets
+    entries overtake each other, a second consumer steals them), and is an unbounded deque() (a bounded one drops entries silently)."""
+    prod: Dict[Tuple[str, str], Set[str]] = {}
+    cons: Dict[Tuple[str, str], Set[str]] = {}
+    for key, r in view.results.items():
+        for e in r.events:
+            if e.kind == "call" and queue_of(e):
+                op = e.name.split(".")[-1]
+                rc = view.recv_class(key, view.base_of_queue_event(e))
+                owner = view.cls_of[key] if rc == "self" else rc
+                q = (owner, queue_of(e))
+                if op in ("append", "extend", "appendleft", "extendleft", "insert"):
+                    prod.setdefault(q, set()).add(key)
+                if op in ("popleft", "pop", "clear", "remove"):
+                    cons.setdefault(q, set()).add(key)
+    n = 0
+    for q, (rp, rc_) in sorted(REF_TOPOLOGY.items()):
+        n += 1
+        gp, gc = prod.get(q, set()), cons.get(q, set())
+        fi0 = view.fi(sorted(gp | gc | rp)[0]) if (gp | gc | rp) else None
+        chk.add(rid, f"producers:{q[0]}.{q[1]}", gp == rp, f"{q[1]} is filled by {sorted(gp)}, reference: {sorted(rp)}", chk.loc(view.fi(sorted(gp - rp)[0])) if gp - rp else (chk.loc(fi0) if fi0 else ""))
+        chk.add(rid, f"consumers:{q[0]}.{q[1]}", gc == rc_, f"{q[1]} is drained by {sorted(gc)}, reference: {sorted(rc_)}", chk.loc(view.fi(sorted(gc - rc_)[0])) if gc - rc_ else (chk.loc(fi0) if fi0 else ""))
+    for q in sorted(set(prod) | set(cons)):
+        if q not in REF_TOPOLOGY and not q[1].startswith("_q_task"):
+            chk.violation(rid, f"unknown-queue:{q[0]}.{q[1]}", f"event queue {q[1]} is not part of the reference hand-off topology (filled by {sorted(prod.get(q, []))}, drained by {sorted(cons.get(q, []))})", "")
+    chk.floor(rid, "event queues of the hand-off topology", n, 15)
+    # unbounded construction
+    for key in ("node._reset", "conn.reset", "node.__init__", "conn.__init__"):
+        r = view.results.get(key)
+        if r is None:
+            continue
+        for e in r.events:
+            if e.kind == "store_attr" and e.recv == S("self") and e.name.split(".")[-1].startswith("q_") and e.term is not None and e.term != T.NONE:
+                t = e.term
+                ok = t[0] == "call" and T.call_name(t) in ("collections.deque", "deque") and not t[2] and not t[3]
+                chk.add(rid, f"unbounded:{key}:{e.name.split('.')[-1]}", ok, f"{e.name} = {T.show(t)[:80]}: event queues must be plain deque() (a maxlen / pre-filled deque drops or invents entries)",
+                        chk.loc(view.fi(key), e.node))
+
+
 def rule_task_private_state(chk: Check, view: AsyncView, rid: str):
     """Values travel between task functions only through the event queues: a scalar attribute that one task function mutates is
     neither read nor written by any other task function (how often the writer has run by the time another task looks is decided
